@@ -91,6 +91,10 @@ def run(chk):
     chk.rule('C04-R3', 'module mask constants equal the documented bit ranges', 5)
     chk.rule('C04-R6', 'each output is written only under its own "is not None" guard from the input word and constants', 15)
     chk.rule('C04-R8', 'wrapper scalars: ppd is rounded to the nearest integer (guarded by isclose), box/ppd defaults, kernel receives (packed, box, ppd, float_dtype, outputs)', 3)
+    chk.rule('C04-R9', 'the catalog\'s subsample zipper hands the decoders output slices that cover the halo\'s rows once: every requested output is sliced to the halo\'s '
+                       'write range and advanced past the original particles before the merged ones are decoded (obligations C01-R5)', 6)
+    from . import c01
+    chk.import_from(c01.run, 'C01', ('C01-R5',), 'C04-R9')
     chk.rule('C04-R7', 'wrappers: allocation tables agree, pos/vel handled symmetrically, dtype assertions present', 4)
     chk.assume('numba promotes int32 op uint32 to int64 (sign-extended), so >> is arithmetic and & acts on the sign-extended value')
     chk.assume('float rounding is not modelled: "within half a quantum" follows analytically from the exact integer decode and the scale')
